@@ -65,6 +65,13 @@ def series_stream(rng, thorough, streams, viol, samples):
         c.pop("pre", None)
         c.update(cls="InventoryHP", npoints=2, contents={rng.choice(radio): float(1e10).hex()}, kind=rng.choice(["Bq", "g", "num", "mass_frac"]), explicit=None, display="all")
         cases.append(c)
+    # the high-precision class on long chains at very short times: late progeny many orders of magnitude below the parent
+    # (curves must still be the pointwise results at full working precision)
+    for k in range(4 if thorough else 1):
+        parent = rng.choice(["Th-232", "U-238", "Pu-244", "Cf-252", "Fm-257", "Np-237", "U-235"])
+        cases.append({"cls": "InventoryHP", "contents": {parent: float(1e6).hex()}, "kind": rng.choice(["num", "Bq"]), "tunit": rng.choice(["ns", "μs", "s"]),
+                      "scale": "linear", "tmax": float(rng.choice([2.0, 5.0, 40.0])).hex(), "npoints": 3, "explicit": None, "plot": True, "display": "all",
+                      "order": "dataset", "yscale": "log", "ymin": float(0.0).hex(), "ymax": None, "xmin": float(0.0).hex()})
     impl = U.run_impl("impl_series.py", cases, timeout=6000)
     bad, lin_terms = [], []
     for c, r in zip(cases, impl):
